@@ -398,7 +398,9 @@ impl PortAssociation {
     }
 
     fn len() -> usize {
-        16
+        // type (1), reserved (1), record length (2), segment (2), BDF (2),
+        // protocol type (1), base address (8)
+        17
     }
 
     fn bdf(&self) -> u16 {
